@@ -11,9 +11,9 @@
                                (every D/S/T/I op clones the Arc for the duration of the call), so the model's AEnvDrop
                                ("the LAST external owner drops") is applied lazily: at the first upgrade that fails.
      cs pwaker k               the wake thread of that task at WCall k (LPipeWaker).  The [rc]/enqueue steps that follow
-                               (WUpgrade, WEnq, WDropRc) are silent in the log and are taken at once; whether the upgrade
-                               succeeded is read off the log: the task's next pipe section is `pollfn` (the take, l.155)
-                               iff it failed.
+                               (WUpgrade, WEnq, WDropRc) are silent in the log; they are taken lazily, when evidence of
+                               the upgrade's outcome arrives (see resolve_ok / resolve_fail): the task's next pipe
+                               section is `pollfn` (the take, l.155) iff it failed.
      new pollfn                pipe_in has built its context: the initial PipeContext::poll (wake thread 0) is taken.
      new pwaker k              the runner (whichever task) has started poll job k: silent ARun steps (finish the previous
                                operation, dequeue) up to JNew, then JNew.
@@ -129,27 +129,41 @@ let replay (p : pinfo) (evs : ev array) : stats =
         | WEnq -> do_step (AWake (nat_of_int idx)) LNone "flush enqueue"; do_step (AWake (nat_of_int idx)) LNone "flush drop of the temporary Arc"
         | WDropRc -> do_step (AWake (nat_of_int idx)) LNone "flush drop of the temporary Arc"
         | _ -> ()) !s.wakes in
+  (* The upgrade of a wake thread is silent in the log and is taken LAZILY: after its pwaker section the thread stays at
+     WUpgrade until evidence of the outcome arrives - the task's own next pipe event (a pollfn section = the take of l.155:
+     the upgrade failed; anything else: it succeeded), a poll job started by some task that the model has not queued yet,
+     or another thread's failed upgrade (after which no upgrade can succeed: every thread that will not take poll_fn has
+     succeeded before).  The DROPOBJ markers that count are those seen up to that point. *)
+  let pend_upg : (int, int) Hashtbl.t = Hashtbl.create 8 in       (* task -> its wake thread, context taken, upgrade not yet decided *)
+  let resolve_ok t idx =
+    Hashtbl.remove pend_upg t;
+    if i !s.strong = 0 then div "task %d scheduled a poll job after its wake (no poll_fn take follows), but the model's strong count is 0: the upgrade must fail" t;
+    incr c_upg_ok; (match !s.running with Some (OPoll _, (JNew | JLockPf | JPoll | JProc _ | JClear)) -> incr c_queued_behind | _ -> ());
+    do_step (AWake (nat_of_int idx)) LNone "upgrade";
+    do_step (AWake (nat_of_int idx)) LNone "enqueue of the poll job";
+    do_step (AWake (nat_of_int idx)) LNone "drop of the temporary Arc" in
+  let candidates () =     (* undecided threads that will not take poll_fn, oldest first *)
+    List.sort compare (Hashtbl.fold (fun t idx acc -> if lookahead t = UOk then (idx, t) :: acc else acc) pend_upg []) in
+  let resolve_fail t idx =
+    Hashtbl.remove pend_upg t;
+    List.iter (fun (idx', t') -> resolve_ok t' idx') (candidates ());
+    flush_wakes ();
+    if not !drop_applied then begin
+      if not !drop_seen then div "task %d takes poll_fn after its wake (the upgrade failed) but the program has not dropped the object" t;
+      do_step AEnvDrop LNone "last external owner drops"; drop_applied := true; incr c_drop
+    end;
+    if i !s.strong <> 0 then div "task %d: the upgrade failed in the implementation but the model's strong count is %d" t (i !s.strong);
+    incr c_upg_fail;
+    do_step (AWake (nat_of_int idx)) LNone "failed upgrade";
+    Hashtbl.replace pend_take t idx in
+  (* the task's own next pipe event decides its pending upgrade *)
+  let decide_own t (is_pollfn : bool) =
+    match Hashtbl.find_opt pend_upg t with
+    | Some idx -> if is_pollfn then resolve_fail t idx else resolve_ok t idx
+    | None -> () in
   let after_call t idx =
-    (* the wake thread has taken the waker's context: decide the upgrade *)
     match wake_at idx with
-    | WUpgrade ->
-      (match lookahead t with
-       | UOk ->
-         if i !s.strong = 0 then div "task %d scheduled a poll job after its wake (no poll_fn take follows), but the model's strong count is 0: the upgrade must fail" t;
-         incr c_upg_ok; (match !s.running with Some (OPoll _, (JNew | JLockPf | JPoll | JProc _ | JClear)) -> incr c_queued_behind | _ -> ());
-         do_step (AWake (nat_of_int idx)) LNone "upgrade";
-         do_step (AWake (nat_of_int idx)) LNone "enqueue of the poll job";
-         do_step (AWake (nat_of_int idx)) LNone "drop of the temporary Arc"
-       | UFail ->
-         flush_wakes ();
-         if not !drop_applied then begin
-           if not !drop_seen then div "task %d takes poll_fn after its wake (the upgrade failed) but the program has not dropped the object" t;
-           do_step AEnvDrop LNone "last external owner drops"; drop_applied := true; incr c_drop
-         end;
-         if i !s.strong <> 0 then div "task %d: the upgrade failed in the implementation but the model's strong count is %d" t (i !s.strong);
-         incr c_upg_fail;
-         do_step (AWake (nat_of_int idx)) LNone "failed upgrade";
-         Hashtbl.replace pend_take t idx)
+    | WUpgrade -> Hashtbl.replace pend_upg t idx
     | WDone -> ()
     | w -> div "wake thread %d is at %s after its call" idx (show_wpc w) in
   let input_event t (a : actor) (name : string) =
@@ -178,6 +192,10 @@ let replay (p : pinfo) (evs : ev array) : stats =
     cur := k;
     let e = evs.(k) in
     let t = e.task in
+    (match e.kind, e.cls with
+     | "cs", "pollfn" -> decide_own t true
+     | "api", _ | "cs", "pwaker" | "new", "pwaker" | "cs", "pipeobj" -> decide_own t false
+     | _ -> ());
     match e.kind, e.cls with
     | "new", "pipeobj" -> pipeobjs := !pipeobjs @ [ e.id ]
     | "new", "pollfn" ->
@@ -205,6 +223,12 @@ let replay (p : pinfo) (evs : ev array) : stats =
     | "new", "pwaker" ->
       Hashtbl.replace after_wake t false; Hashtbl.replace job_pollfn t 0;
       settle_run ();
+      (* a job the model has not queued yet: some undecided wake thread has succeeded *)
+      let rec need () = match !s.running with
+        | Some (OPoll _, JNew) -> ()
+        | None when !s.opq = [] -> (match candidates () with (idx', t') :: _ -> resolve_ok t' idx'; settle_run (); need () | [] -> ())
+        | _ -> () in
+      need ();
       (match !s.running with
        | Some (OPoll kk, JNew) when i kk = e.id -> ()
        | _ -> div "task %d starts poll job %d (creates its PipeWaker), model: %s" t e.id (show_running !s));
@@ -240,6 +264,8 @@ let replay (p : pinfo) (evs : ev array) : stats =
   (* ---------- the end of the log (api END): every caller has finished its script ---------- *)
   Hashtbl.iter (fun t idx -> div "at END: in the model task %d still has to call the waker it took (wake thread %d at %s), the implementation's task has finished" t idx (show_wpc (wake_at idx))) pend_call;
   Hashtbl.iter (fun t idx -> div "at END: in the model task %d still has to take poll_fn (wake thread %d)" t idx) pend_take;
+  List.iter (fun (idx', t') -> resolve_ok t' idx') (candidates ());
+  Hashtbl.iter (fun t idx -> div "at END: in the model task %d has an undecided upgrade (wake thread %d)" t idx) pend_upg;
   settle_run ();
   flush_wakes ();
   (match step_label !s AChute with Some LNone -> do_step AChute LNone "chute" | _ -> ());
